@@ -658,4 +658,11 @@ example : ∃ out, isotopicDistribution exF1 exO = .ok out := by
   · cases h
 
 
+/-- the algebraic hypotheses of `conv_comm`, `conv_assoc`, `conv_pushforward` hold for masses and for (mass, offset) pairs -/
+example : ∀ a b : Rat, a + b = b + a := Rat.add_comm
+example : ∀ a b c : Rat, a + b + c = a + (b + c) := Rat.add_assoc
+example : ∀ a b : Rat × Rat, (a + b).2 = a.2 + b.2 := fun _ _ => rfl
+/-- sulfur is in the table with four isotopes (hypothesis `x.1 ∈ table` of `neutron_view_is_binned_pattern`, via `lookupEntry_mem`) -/
+example : (lookupEntry keyS).map (fun e => (massIsotopes e).length) = some 4 := by decide +kernel
+
 end C14
